@@ -9,7 +9,11 @@ LEVEL = "exploration"
 FAMILY = "C01"
 RULE = (
     "cases = (job DAG spec from harness.genjob: 0-10 tasks quick / 0-14 thorough, any shape, multi-output tasks, positional and "
-    "keyword edges, static arguments, any subset of datasets requested; cluster of 1-4 hosts x 1-3 workers (thorough 6 x 4) with a "
+    "keyword edges (with static defaults), static arguments, dotted / punctuated names in a sixth of the jobs, task values of ten "
+    "Python types (str, bytes, bytearray, empty bytes, None, tuple, frozenset, large bytes, NumPy array and scalar; compared "
+    "type-strictly), twin tasks (one TaskInstance under two names), callables shared by tasks with other declarations, any subset of "
+    "datasets requested; optionally the same Preschedule re-used from an earlier run, or a prelude job with the same task names run "
+    "first in the same process; in half of the cases workers are pre-empted after each publication of a running task; cluster of 1-4 hosts x 1-3 workers (thorough 6 x 4) with a "
     "generated GPU subset that keeps the job feasible; schedule = inside Bridge.recv_events a generated choice among all enabled "
     "steps: deliver the next message to a worker, let an executor forward one message, let a data server execute one command / store "
     "one payload / purge, let one event reach the controller, or return the arrived events). Oracle: every requested output equals "
